@@ -6,6 +6,10 @@ func init() {
 	verifRegister("VerifC13", VerifC13)
 }
 
+// Option slices as a caller may well hold them: one backing array, c13Common a prefix of c13JSON with spare capacity.
+// What a library call does with the slice it is handed must not leak into the other one.
+var c13Common, c13JSON []Option
+
 type c13Tree struct {
 	root  *mNode
 	nodes []*mNode
@@ -23,7 +27,7 @@ func c13Op(kind uint, t *c13Tree) (string, error) {
 		err := WalkFromRoot(t.root.real, func(wn *WalkerNode) error {
 			rows += wn.Row() + "\n"
 			return nil
-		})
+		}, c13Common...)
 		return rows, err
 	case 2: // iterator walk: rows and paths
 		rows := ""
@@ -39,7 +43,7 @@ func c13Op(kind uint, t *c13Tree) (string, error) {
 	}
 	// JSON record
 	w := newVerifWriter()
-	err := OutputFromRoot(w, t.root.real, WithEncodeJSON())
+	err := OutputFromRoot(w, t.root.real, c13JSON...)
 	return w.out, err
 }
 
@@ -72,6 +76,8 @@ func c13Name() string {
 
 func VerifC13() {
 	n := verifN() % 10
+	c13Common = make([]Option, 0, 4)
+	c13JSON = append(c13Common, WithEncodeJSON())
 	t0 := &c13Tree{}
 	t0.root = &mNode{name: c13Name()}
 	t0.root.real = NewRoot(t0.root.name)
@@ -120,7 +126,7 @@ func VerifC13() {
 			verifAssert(err == nil && w.out == a+"\n"+dLD+" "+b+"\n", "C13.md")
 			hist += "M"
 		case 4: // unrelated option-less verify of a throw-away tree (read-only; switches name validation on for itself)
-			_ = VerifyFromRoot(NewRoot(verifName("name")))
+			_ = VerifyFromRoot(NewRoot(verifName("name")), c13Common...)
 			hist += "V"
 		}
 	}
